@@ -285,6 +285,7 @@ def check(ctx):
         rep.cur_config = cfgname
         from . import common as _common
         _common.check_frame(f, rep, 'C11-R0')
+        _common.check_state_fields(f, rep, 'C11-R0', ('members', 'updates'))
         _common.check_derives(f, rep, 'C11-R0')
         r1_guards(ctx, f, rep)
         r2_creation(ctx, f, rep)
